@@ -560,6 +560,17 @@ udp_send_disc(udp_ep *ep, udp_pipe *p, udp_disc_reason reason)
 		return;
 	}
 	p->closed = true;
+	// Giving up a pipe whose dial is still pending (a DATA datagram with
+	// a length beyond the datagram or the limit that arrives before the
+	// CACK, see udp_recv_data) must fail that dial, as udp_recv_cack and
+	// udp_recv_disc do: closing the pipe takes it out of ep->pipes, so
+	// the timer would never expire it and the dialer would wait forever
+	// and never connect again.
+	if (ep->dialer && (p->state < PIPE_CONN_DONE) && (reason != DISC_CLOSED) &&
+	    ((aio = nni_list_first(&ep->connaios)) != NULL)) {
+		nni_aio_list_remove(aio);
+		nni_aio_finish_error(aio, NNG_ECONNREFUSED);
+	}
 	while ((aio = nni_list_first(&p->rx_aios)) != NULL) {
 		nni_aio_list_remove(aio);
 		nni_aio_finish_error(aio, NNG_ECLOSED);
